@@ -52,7 +52,12 @@ def strategy(tier):
     n = 20 if tier == 'quick' else 40
     plain = st.fixed_dictionaries({'kind': st.sampled_from(['fs', 'mapping', 'demo']),
                                    'ops': st.lists(objprog.op_strategy({'savepoint'}), min_size=3, max_size=n)})
-    return st.one_of(plain, plain, plain, blob_strategy(n))
+    # "committing after savepoints stores exactly the final states; aborting discards everything": commits of
+    # transactions with savepoints that are interrupted (conflict on a saved object, failing participant,
+    # unpicklable object) and then the connection is used again - the programs of C05's connection cases
+    from checks import c05_unfinished
+    interrupted = c05_unfinished.conn_strategy(tier).map(lambda c: {'kind': c['kind'], 'ops': c['ops']})
+    return st.integers(0, 99).flatmap(lambda r: blob_strategy(n) if r < 25 else interrupted if r < 45 else plain)
 
 
 def execute_blobs(case):
